@@ -108,6 +108,30 @@ def h_create_delta(eng, blen=3, tlen=3):
             eng.prove(r == ("ok", ct), f"{nm} encoder + {dn} decoder reproduce the target (base={cb!r} target={ct!r} got {r})", inputs=w)
 
 
+RUNS = [1, 126, 127, 128, 253, 254, 255, 381]
+COPIES = [16, 0xFFFF, 0x10000, 0x10001]
+
+
+def h_create_delta_runs(eng, rust=True, cpk=0, where=0):
+    """literal runs and copy blocks at the opcode size limits (127-byte inserts, 64 KiB copies): both encoders' output
+    decodes with both decoders to the target"""
+    run = RUNS[eng.choice("literal_run_length", len(RUNS))]
+    cp = COPIES[cpk]
+    # where: literal at the start (0), in the middle (1), at the end (2)
+    common = bytes((i * 7 + (i >> 8)) & 0xFF for i in range(cp))
+    lit = bytes(200 + (i % 50) for i in range(run))
+    base = common
+    target = [lit + common, common[:cp // 2] + lit + common[cp // 2:], common + lit][where]
+    encs = [("python", P._create_delta_py)] + ([("rust", ext("_pack").create_delta)] if rust else [])
+    decs = [("python", P.apply_delta)] + ([("rust", ext("_pack").apply_delta)] if rust else [])
+    for nm, enc in encs:
+        d = b"".join(enc(base, target)) if nm == "python" else bytes(enc(base, target))
+        for dn, dec in decs:
+            r = outcome(dec, base, d, post=_join)
+            eng.prove(r[0] == "ok" and r[1] == target, f"{nm} encoder + {dn} decoder reproduce a target with a {run}-byte literal "
+                      f"(position {where}) and a {cp}-byte common block (got {r[0]} {str(r[1])[:60]})")
+
+
 def h_parse_tree(eng, n=5, strict=False, tail2=False):
     """same entry list, or failure in both, for every path of the Python parser"""
     head = eng.bytes("text", n)
@@ -193,23 +217,32 @@ def h_merge_entries(eng, n1=2, n2=2):
             for j in range(i):
                 eng.assume(Not(grp[i] == grp[j]) if len(grp[i]) == len(grp[j]) else True)
 
+    # the first entry of each tree may be a directory (directories sort as "name/" in tree order, by bare name in name order)
+    MODES = [0o100644, 0o040000]
+    m1 = [MODES[eng.choice("x0_is_dir", 2)]] + [0o100644] * (n1 - 1)
+    m2 = [MODES[eng.choice("y0_is_dir", 2)]] + [0o100644] * (n2 - 1)
+
     class FakeTree:
-        def __init__(self, names):
+        def __init__(self, names, modes):
             self.names = names
+            self.modes = modes
 
         def __bool__(self):
             return bool(self.names)
 
         def iteritems(self, name_order=False):
-            return [TreeEntry(n, 0o100644, b"1" * 40) for n in sorted(self.names, key=lambda b: b)]
-    DT._merge_entries(b"", FakeTree(names1), FakeTree(names2))
+            ents = [TreeEntry(n, m, b"1" * 40) for n, m in zip(self.names, self.modes)]
+            if name_order:
+                return sorted(ents, key=lambda e: e.path)
+            return sorted(ents, key=lambda e: (e.path + b"/") if e.mode == 0o040000 else e.path)
+    DT._merge_entries(b"", FakeTree(names1, m1), FakeTree(names2, m2))
     w = eng.witness()
     from dulwich.objects import Tree
     t1, t2 = Tree(), Tree()
     for i in range(n1):
-        t1.add(bytes(w[f"x{i}"]), 0o100644, b"1" * 40)
+        t1.add(bytes(w[f"x{i}"]), m1[i], b"1" * 40)
     for i in range(n2):
-        t2.add(bytes(w[f"y{i}"]), 0o100644, b"2" * 40)
+        t2.add(bytes(w[f"y{i}"]), m2[i], b"2" * 40)
     conv = lambda r: [(a and tuple(a), b and tuple(b)) for a, b in r]
     py = outcome(DT._merge_entries, b"p", t1, t2, post=conv)
     saved = O.sorted_tree_items
@@ -258,6 +291,12 @@ def checks(tier):
                bounds="one witness per (|base|,|target|) in {0,2,3}^2 with symbolic contents (the encoders' own branching on "
                       "contents is not explored symbolically: difflib/similar run natively)",
                outside="the diff algorithms' case splits", tiers=q),
+        KCheck("C15b.create_delta_runs", h_create_delta_runs, parts=[{"cpk": c, "where": w_} for c in range(4) for w_ in range(3)],
+               encoded=["dulwich.pack._create_delta_py/_encode_copy_operation", "crates/pack/src/lib.rs create_delta", "both decoders"],
+               bounds="literal runs of 1,126,127,128,253,254,255,381 bytes (the 127-byte insert limit and its multiples) at the "
+                      "start, middle or end of a target sharing a block of 16, 0xFFFF, 0x10000 or 0x10001 bytes with the base (the "
+                      "64 KiB copy limit); concrete contents, lengths forked by the solver",
+               outside="other lengths", tiers=q),
         KCheck("C15c.parse_tree", h_parse_tree,
                parts=[{"n": n, "strict": s, "tail2": t2} for n in range(0, 5) for s in (False, True) for t2 in (False, True)],
                encoded=["dulwich.objects.parse_tree (symbolic)", "crates/objects/src/lib.rs parse_tree (native)"],
